@@ -155,15 +155,19 @@ def run(ctx):
     ctx.sample({"script": cases[0][1], "brush": canon(res[0][0])})
     ctx.sample({"script": cases[-1][1], "brush": canon(res[-1][0])})
     err_trap_direct(ctx)
+    err_fire_family(ctx)
     own_trap_family(ctx)
     signal_trap_family(ctx)
     nested_trap_family(ctx)
     ctx.cov["rule"] = ("termination paths (end, failing end, exit n, bare exit, errexit) x 12 nesting contexts x 7 handler bodies "
                        "(plain, exit n, failing under errexit, function call, subshell exit, loop) x {-c, script file, stdin}, trap set / "
                        "replaced / removed, plus seeded random control-flow programs; brush vs bash vs the trap model; ERR-trap "
-                       "programs brush vs bash only")
-    ctx.assumptions += ["ERR-trap firing positions are not in the Lean model (compared with bash directly, on programs without `!` over "
-                        "compound commands, where bash's exemption depends on whether errexit was on when the `!` command started)",
+                       "programs brush vs bash, and small ERR-firing programs (inner command x 20 contexts x 8 outer contexts x set -E x 6 "
+                       "handlers, plus seeded random) four-way: brush = execE, bash = ref")
+    ctx.assumptions += ["ERR-trap firing positions are in the Lean model (Model/ErrTrap.lean) for the fragment simple command / exit / return / "
+                        "function call / ; && || ! / if / while / until / { } / ( ) / two-stage pipeline; outside it (and for `!` over compound "
+                        "commands, a subshell or `!` as last command of a subshell, a subshell or function call as last pipeline stage, where "
+                        "bash departs from its documented rule) brush is compared with bash directly or not at all",
                         "traps set inside the program at arbitrary points are resolved statically to the handler in force at exit"]
 
 
@@ -426,3 +430,224 @@ def replay(ctx, rp):
     if "request" in case:
         print("model:", lib.run_drv([case["request"]])[0])
     return 0 if canon(b) == canon(o) else 1
+
+
+# ----------------------------------------------------------------------------------------------
+# ERR-trap firing inside the model (Model/ErrTrap.lean `execE`, Spec/ErrTrap.lean `ref`)
+
+class _EfR:
+    """renders an ErrTrap.Cmd tuple to shell text; functions are defined in a preamble"""
+    def __init__(self):
+        self.defs, self.k = [], 0
+
+    def fresh(self):
+        self.k += 1
+        return self.k
+
+    def braced(self, c, inh):
+        t = self.r(c, inh)
+        return t if c[0] in ("G", "W") else "{ %s; }" % t
+
+    def r(self, c, inh=False):
+        k = c[0]
+        if k == "L":
+            return ("echo %s%d" % ("h" if inh else "m", c[1])) if c[2] == 0 else "false"
+        if k == "X":
+            return "exit %d" % c[1]
+        if k == "R":
+            return "return %d" % c[1]
+        if k == "K":
+            n = self.fresh()
+            body = self.r(c[1], inh)
+            self.defs.append("f%d() { %s; }" % (n, body))
+            return "f%d" % n
+        if k == "S":
+            return "%s; %s" % (self.r(c[1], inh), self.r(c[2], inh))
+        if k in ("A", "O"):
+            a = self.braced(c[1], inh) if c[1][0] == "S" else self.r(c[1], inh)
+            b = self.braced(c[2], inh) if c[2][0] in ("S", "A", "O") else self.r(c[2], inh)
+            return "%s %s %s" % (a, "&&" if k == "A" else "||", b)
+        if k == "N":
+            return "! " + (self.r(c[1], inh) if c[1][0] == "L" else self.braced(c[1], inh))
+        if k == "I":
+            return "if %s; then %s; else %s; fi" % (self.r(c[1], inh), self.r(c[2], inh), self.r(c[3], inh))
+        if k == "W":
+            n = self.fresh()
+            return "{ i%d=0; %s %s; [ $((i%d+=1)) %s %d ]; do %s; done; }" % (
+                n, "until" if c[1] else "while", self.r(c[3], inh), n, "-gt" if c[1] else "-le", c[2], self.r(c[4], inh))
+        if k == "G":
+            return "{ %s; }" % self.r(c[1], inh)
+        if k == "U":
+            return "(\n%s\n)" % self.r(c[1], inh)
+        if k == "P":
+            b = self.r(c[2], inh) if c[2][0] in ("L", "I") else self.braced(c[2], inh)
+            return "%s | %s" % ("true" if c[1] == 0 else "false", b)
+        raise ValueError(k)
+
+
+def _ef_wire(c):
+    k = c[0]
+    if k == "L":
+        return "L %d %d" % (c[1], c[2])
+    if k in ("X", "R"):
+        return "%s %d" % (k, c[1])
+    if k == "W":
+        return "W %d %d %s %s" % (1 if c[1] else 0, c[2], _ef_wire(c[3]), _ef_wire(c[4]))
+    if k == "P":
+        return "P %d %s" % (c[1], _ef_wire(c[2]))
+    return k + " " + " ".join(_ef_wire(x) for x in c[1:])
+
+
+EF_HANDLERS = [("L", 90, 0), ("S", ("L", 91, 1), ("L", 90, 0)), ("S", ("L", 90, 0), ("L", 91, 1)),
+               ("K", ("S", ("L", 91, 1), ("L", 90, 0))),
+               # (no failing subshell inside the handler: under `set -E` bash takes the trap again in the subshell of
+               #  the handler, without end -- a fork chain that has to be killed)
+               ("O", ("L", 91, 1), ("L", 90, 0)), ("S", ("P", 0, ("L", 91, 1)), ("L", 90, 0))]
+
+
+EF_OUTER = ("and_l", "or_r", "if_cond", "wh_body", "sub", "call", "stage0")
+
+
+def _ef_build(prog, handler, et):
+    rr = _EfR()
+    h = rr.r(handler, True)
+    p = rr.r(prog, False)
+    script = "".join(d + "\n" for d in rr.defs) + ("set -E\n" if et else "") + "trap 'echo E$?; %s' ERR\n%s\n" % (h, p)
+    return script, "C16 errfire %d %s %s" % (1 if et else 0, _ef_wire(handler), _ef_wire(prog))
+
+
+def _ef_wrappers():
+    m = lambda i, s=0: ("L", i, s)
+    return {
+        "top": lambda c, f: c, "then_more": lambda c, f: ("S", c, m(10)), "after_fail": lambda c, f: ("S", m(11, 1), c),
+        "and_l": lambda c, f: ("A", c, m(12)), "and_r": lambda c, f: ("A", m(13), c),
+        "or_l": lambda c, f: ("O", c, m(14, 1)), "or_r": lambda c, f: ("O", m(15, 1), c),
+        "andor_mid": lambda c, f: ("O", ("A", m(16), c), m(17)),
+        "if_cond": lambda c, f: ("I", c, m(18), m(19, 1)), "if_then": lambda c, f: ("I", m(20), c, m(21)),
+        "if_else": lambda c, f: ("I", m(22, 1), m(23), c),
+        "wh_cond": lambda c, f: ("W", False, 1, c, m(24)), "wh_body": lambda c, f: ("W", False, 2, m(25), c),
+        "un_body": lambda c, f: ("W", True, 1, m(26, 1), ("S", c, m(27))),
+        "grp": lambda c, f: ("G", ("S", c, m(28))), "sub": lambda c, f: ("U", ("S", c, m(29))),
+        "call": lambda c, f: ("K", ("S", c, m(30))), "call_last": lambda c, f: ("K", c),
+        "stage": lambda c, f: ("P", 1, ("G", c)), "stage0": lambda c, f: ("P", 0, ("S", c, m(31))),
+    }
+
+
+def _ef_ok(c, infn=False, top=True):
+    """generator domain: `return` only directly in a function (not under a subshell / stage); `!` only over a simple
+    command (bash's ERR exemption under `!` does not reach into compound commands); a last stage is a simple command,
+    a brace group or an `if` (bash checks a subshell / function call as last stage twice)"""
+    k = c[0]
+    if k == "R":
+        return infn
+    if k in ("L", "X"):
+        return True
+    if k == "N":
+        return c[1][0] == "L"
+    if k == "K":
+        return _ef_ok(c[1], True)
+    if k in ("U",):
+        # bash runs the last command of a subshell without a process of its own: a subshell there is not checked
+        # separately and a `!` there loses its exemption (bash-only oddities, outside the reference rule)
+        t = c[1]
+        while t[0] == "S":
+            t = t[2]
+        return t[0] not in ("U", "N") and _ef_ok(c[1], False)
+    if k == "P":
+        return c[2][0] in ("L", "G", "I", "S", "A", "O") and _ef_ok(c[2], False)
+    if k == "W":
+        return _ef_ok(c[3], infn) and _ef_ok(c[4], infn)
+    return all(_ef_ok(x, infn) for x in c[1:])
+
+
+def _ef_rand(rng, d, infn):
+    m = lambda: ("L", rng.randrange(1, 60), rng.choice([0, 0, 1]))
+    if d <= 0 or rng.random() < 0.25:
+        r = rng.random()
+        if r < 0.08:
+            return ("X", rng.choice([0, 3]))
+        if r < 0.16 and infn:
+            return ("R", rng.choice([0, 3]))
+        if r < 0.3:
+            return ("N", m())
+        return m()
+    k = rng.choice("SSSAAOOIWGUKKP")
+    g = lambda f=infn: _ef_rand(rng, d - 1, f)
+    if k in "SAO":
+        return (k, g(), g())
+    if k == "I":
+        return ("I", g(), g(), g())
+    if k == "W":
+        return ("W", rng.random() < 0.4, rng.choice([0, 1, 2]), g(), g())
+    if k == "G":
+        return ("G", g())
+    if k == "U":
+        return ("U", g(False))
+    if k == "K":
+        return ("K", g(True))
+    return ("P", rng.choice([0, 1]), ("G", g(False)))
+
+
+def err_fire_family(ctx):
+    rng = ctx.rng
+    cases = []
+    inners = {"fail": ("L", 1, 1), "ok": ("L", 1, 0), "not_ok": ("N", ("L", 1, 0)), "not_fail": ("N", ("L", 1, 1)),
+              "exit3": ("X", 3), "exit0": ("X", 0), "sub_exit3": ("U", ("X", 3)), "fn_ret3": ("K", ("R", 3)),
+              "fn_fail_more": ("K", ("S", ("L", 2, 1), ("L", 3, 0))), "fn_fail": ("K", ("L", 2, 1)),
+              "pipe_fail": ("P", 0, ("L", 4, 1)), "pipe_ok": ("P", 1, ("L", 4, 0)), "sub_fail": ("U", ("L", 5, 1)),
+              "fn_ret0": ("K", ("S", ("L", 2, 1), ("R", 0)))}
+    ws = _ef_wrappers()
+    n = 0
+    for iname, inner in inners.items():
+        for w1n, w1 in ws.items():
+            for w2n, w2 in [(k, v) for k, v in ws.items() if k in EF_OUTER] + [(None, None)]:
+                prog = w1(inner, None)
+                if w2 is not None:
+                    prog = w2(prog, None)
+                if not _ef_ok(prog):
+                    continue
+                for et in (False, True):
+                    n += 1
+                    h = EF_HANDLERS[n % len(EF_HANDLERS)]
+                    cases.append(("exh/%s/%s/%s" % (iname, w1n, w2n), prog, h, et))
+    for i in range(ctx.size(700, 8000)):
+        prog = _ef_rand(rng, rng.choice([2, 3, 3, 4]), False)
+        if not _ef_ok(prog):
+            continue
+        cases.append(("rand", prog, rng.choice(EF_HANDLERS), rng.random() < 0.5))
+    built = [_ef_build(p, h, et) for (_, p, h, et) in cases]
+    res = lib.pmap(lambda sr: lib.run_both(sr[0], timeout=20), built)
+    for i, (b, o) in enumerate(res):
+        if b["timeout"] or o["timeout"]:
+            res[i] = lib.run_both(built[i][0], timeout=120)
+    mouts = lib.run_drv_parallel([r for _, r in built])
+    for (tag, prog, h, et), (script, req), (b, o), m in zip(cases, built, res, mouts):
+        cb, co = canon(b), canon(o)
+        fired = "E" in cb
+        ctx.count("ef" + script, nontrivial=fired or "false" in script, bucket="err-fire/" + tag.split("/")[0] + ("/fires" if fired else "/silent"))
+        ctx.impl_validated += 1
+        case = {"script": script, "family": tag, "request": req, "brush": cb, "bash": co, "model": m, "brush_stderr": b["err"][-300:]}
+        parts = m.split(" | ")
+        if len(parts) != 3:
+            ctx.violation("driver could not evaluate the errfire request", case, kind="correspondence")
+            continue
+        impl, spec, d = parts
+        if co != spec:
+            ctx.oracle_mismatch += 1
+            ctx.notes.append("err-fire oracle_mismatch: " + tag)
+        if cb == co:
+            if cb != impl:
+                ctx.violation("ERR-firing model and brush disagree (correspondence broken; brush agrees with bash here)", case,
+                              kind="correspondence")
+            continue
+        # brush and bash differ: the property fails on this input
+        tb, to = _toks(cb), _toks(co)
+        ish = lambda t: t[0] in "Eh"
+        if (cb == impl and d == "D" and [t for t in tb if not ish(t)] == [t for t in to if not ish(t)]
+                and cb.split(" ")[0] == co.split(" ")[0] and _subseq(to, tb)):
+            ctx.known_or_violation("err_trap_fires_again_for_leaving_command",
+                                   "the ERR handler also runs for a command that is itself leaving (exit/return)", case)
+        else:
+            ctx.violation("ERR trap firing: brush and bash differ" + ("" if cb == impl else " (and brush differs from its model)"),
+                          case, kind="property")
+    ctx.sample({"script": built[0][0], "brush": canon(res[0][0]), "model": mouts[0]})
